@@ -455,6 +455,14 @@ def gen_probe(rng, i):
          'dims': rng.choice([None, [7, 13], [1, 1], [300, 500]]),
          'echo': rng.choice([True, True, False]),
          'ignore_sighup': rng.choice([False, False, True]), 'i': i}
+    if rng.random() < 0.12:
+        # a text-mode object with a narrow encoding and a lenient error policy for the child's OUTPUT: the command
+        # line is still handed over exactly, or the launch is refused
+        c['enc'] = rng.choice(['ascii', 'latin-1'])
+        c['codec_errors'] = rng.choice(['ignore', 'replace', 'strict'])
+        c['form'] = rng.choice(['list', 'string'])
+        c['args'] = [rng.choice(['plain', 'na\xefve caf\xe9', 'price \u20ac5', 'x']) for _ in range(rng.randint(1, 3))]
+        c['cwd'] = None
     return c
 
 
@@ -471,6 +479,14 @@ def probe_case(c, tmp, acc):
         base = [PY, '-S', '-E', PROBE]
         args = list(c['args'])
         kw = {'timeout': 20, 'cwd': cwd, 'env': env, 'encoding': c['enc']}
+        unrep = False
+        if c.get('codec_errors'):
+            kw['codec_errors'] = c['codec_errors']
+            acc.count('probe_narrow_encoding')
+            try:
+                [a.encode(c['enc']) for a in args]
+            except UnicodeEncodeError:
+                unrep = True
         try:
             if popen:
                 acc.count('probe_popen')
@@ -505,7 +521,18 @@ def probe_case(c, tmp, acc):
             else:
                 ch.close()
         except Exception as e:
+            if unrep:
+                acc.count('probe_unrepresentable_argv_refused')
+                return
             acc.violation('probe-launch-fails', 'launch %r raised %r' % (c, e), c)
+            return
+        if unrep:
+            acc.violation('argv-differs', 'an argument cannot be represented in %s, yet a child was started with argv %r (requested %r, '
+                          'codec_errors=%s)' % (c['enc'], [bytes.fromhex(h) for h in info['argv']], args, c['codec_errors']), c)
+            return
+        if c.get('codec_errors'):
+            if [bytes.fromhex(h) for h in info['argv']] != [a.encode(c['enc']) for a in args]:
+                acc.violation('argv-differs', 'child saw argv %r, requested %r in %s' % ([bytes.fromhex(h) for h in info['argv']], args, c['enc']), c)
             return
         got_args = [bytes.fromhex(h).decode('utf-8', 'surrogateescape') for h in info['argv']]
         nd = 0
